@@ -115,6 +115,16 @@ def path_of(doc, target):
         cur = els[cur["signed_by"]]
 
 
+def path_of_safe(doc, target):
+    """names from the target upwards as far as they can be followed"""
+    els = {e["name"]: e for e in doc["elements"]}
+    p, cur = [], els.get(target)
+    while cur is not None and cur["name"] not in p:
+        p.append(cur["name"])
+        cur = els.get(cur["signed_by"])
+    return p
+
+
 def corrupt(rng, doc, info, kind):
     """returns (doc', root_pub', touched element name or None) or None if n/a"""
     d = copy.deepcopy(doc)
@@ -431,6 +441,28 @@ def run_case(acc, cseed, tmpdir):
                 else:
                     on_path = "on" if on_path == "-" else on_path
         acc.distinct.add("%s|%s|%d|%s" % (kind, on_path, depth, len(doc["targets"])))
+    # ---- a certifier name that is not the root's name but a part of it, or it in another
+    # case, or with blanks around it: there is no such element, so nothing below it is valid
+    # (refusing the file is what the code does)
+    if rng.random() < 0.3:
+        d2 = copy.deepcopy(doc)
+        tops = [e for e in d2["elements"] if e["signed_by"] == "root"]
+        if tops:
+            el = rng.choice(tops)
+            el["signed_by"] = rng.choice(["oot", "roo", "ro", "oo", "ot", "r", "o", "t", "",
+                                          "Root", "ROOT", "root ", " root", "rootroot"])
+            acc.evaluations += 1
+            acc.count("certificates_with_a_certifier_named_almost_like_the_root")
+            try:
+                got = run_code(d2, root_pub, tmpdir)
+            except Exception:
+                got = None
+                acc.count("certificates_with_a_certifier_named_almost_like_the_root_refused_whole")
+            for t in (d2["targets"] if got is not None else []):
+                if el["name"] in path_of_safe(d2, t) and got.get(t) is not None and got[t][0]:
+                    acc.violation("accepted-invalid-chain:certifier-named-almost-like-the-root",
+                                  {"target": t, "element": el["name"],
+                                   "signed_by": el["signed_by"], "got": got[t]}, case)
     # ---- an element that declares a tweak which is no tweak ("" / null / false / 0) and is
     # signed with the certifier's key as it is.  The format knows a tweak (a hex string) or
     # no such member; whatever the code makes of this one - refusing the file is what it
